@@ -45,6 +45,10 @@
 (*  "self_heartbeat_demotes_leader"  (Multi only) the self-addressed          *)
 (*     heartbeat tick is handled like a peer's heartbeat.  Corrected (and     *)
 (*     Flexible Paxos as coded): the tick re-sends heartbeats.                *)
+(*  "commit_scan_stops_at_acked_slot"  (plausible mutation of the repaired     *)
+(*     _handle_accepted) the prefix-commit scan stops at the slot of the ack   *)
+(*     being processed: a later slot whose quorum completed earlier is never   *)
+(*     committed (Progress).                                                  *)
 EXTENDS Integers, Sequences, FiniteSets, TLC
 
 CONSTANTS N, Dev,
@@ -224,11 +228,11 @@ HAccept(ns, n, m) ==
              a == FollowerCommit(d.ns, m.ci, m.bn, m.bi)
          IN R(a.ns, ack \o d.out, a.res, FALSE)
 
-RECURSIVE QuorumPrefix(_, _)
-QuorumPrefix(ns, k) ==
-    IF k + 1 <= Len(ns.log) /\ Get(ns.ackers, k + 1, NoAcks).b = ns.cur
-                            /\ Cardinality(Get(ns.ackers, k + 1, NoAcks).s) >= Q2
-    THEN QuorumPrefix(ns, k + 1) ELSE k
+RECURSIVE QuorumPrefix(_, _, _)
+QuorumPrefix(ns, k, hi) ==
+    IF k + 1 <= hi /\ Get(ns.ackers, k + 1, NoAcks).b = ns.cur
+                   /\ Cardinality(Get(ns.ackers, k + 1, NoAcks).s) >= Q2
+    THEN QuorumPrefix(ns, k + 1, hi) ELSE k
 
 HAccepted(ns, n, m) ==
     IF "slot_acks_ignore_ballot" \in Dev
@@ -243,7 +247,8 @@ HAccepted(ns, n, m) ==
              s2 == (IF old.b = ns.cur THEN old.s ELSE {n}) \cup {m.src}
              ns1 == [ns EXCEPT !.ackers = Put(@, m.slot, [b |-> ns.cur, s |-> s2]),
                                !.sacks = Put(@, m.slot, Cardinality(s2))]
-             a == Advance(ns1, QuorumPrefix(ns1, ns1.commit))
+             hi == IF "commit_scan_stops_at_acked_slot" \in Dev THEN m.slot ELSE Len(ns1.log)
+             a == Advance(ns1, QuorumPrefix(ns1, ns1.commit, hi))
          IN R(a.ns, <<>>, a.res, FALSE)
 
 HHeartbeat(ns, n, m) ==
